@@ -85,6 +85,18 @@ func (w *worker) eval(family string, sites []string, label string, triples []str
 	v := check(text)
 	if !v.parsed {
 		w.n["parser_rejects"]++
+		if v.astOnError {
+			// a text that does not parse must not leave anything a caller could format
+			e := w.e
+			key := "parse-error-with-ast:" + strings.Join(sites, "+")
+			e.mu.Lock()
+			if f := e.viol[key]; f == nil {
+				e.viol[key] = &finding{key: key, kind: "parse-error-with-ast", family: family, text: text, detail: "config.Parse returned an error together with a non-nil AST", rank: 2, count: 1}
+			} else {
+				f.count++
+			}
+			e.mu.Unlock()
+		}
 		return
 	}
 	w.n["parser_accepts"]++
@@ -162,7 +174,7 @@ func (e *engine) report() {
 			f.detail, f.count, f.validBefore, f.becomesValid, indent(f.text), indent(f.out))
 		e.r.Violation(f.key, msg, map[string]any{"text": f.text, "formatted": f.out, "family": f.family, "detail": f.detail, "texts_in_class": f.count,
 			"texts_valid_before": f.validBefore, "texts_invalid_becoming_valid": f.becomesValid},
-			func() bool { return check(text).kind != "" })
+			func() bool { v := check(text); return v.kind != "" || v.astOnError })
 	}
 }
 
@@ -312,11 +324,15 @@ func TestCheck(t *testing.T) {
 		}
 	})
 	// -- route layout: channel wrappers / shorthand / bare, quoted and bare paths ---------
+	layoutMax := runner.Pick(r, 3, 4)
 	phase1 = append(phase1, func(w *worker) {
-		layoutPrograms(func(name, text string) {
+		layoutPrograms(layoutMax, layoutMax, func(name, text string) {
 			w.eval("layout", []string{"layout"}, "", []string{"(layout," + name[:strings.LastIndexByte(name, 'q')] + ")"}, text)
 		})
 	})
+	// -- lexical layer: every separator symbol at every token boundary (lexlayer.go) -----
+	llTasks, llProgs, llSyms, llCore, llPair := lexLayerTasks(e, g, r.Thorough())
+	phase1 = append(phase1, llTasks...)
 
 	// -- k = 2 inside one block: every pair of slots, every pair of spellings, both orders --
 	inBlock := func(sel func(*slot) []spelling) {
@@ -400,6 +416,11 @@ func TestCheck(t *testing.T) {
 	r.Set("spellings", nSpell)
 	r.Set("value_positions", nPos)
 	r.Set("lexical_strings_per_form", len(lex))
+	r.Set("lexlayer_programs", llProgs)
+	r.Set("lexlayer_symbols", llSyms)
+	r.Set("lexlayer_symbols_core", llCore)
+	r.Set("lexlayer_symbols_pair", llPair)
+	r.Set("layout_max_groups_routes", layoutMax)
 	r.Set("ref_accepts", r.Counter("parser_accepts"))
 	r.Set("ref_rejects", r.Counter("parser_rejects"))
 	r.Set("violation_keys", len(e.viol))
